@@ -71,6 +71,15 @@ func (s *symFn) emissions() []emission {
 					out = append(out, emission{target: name, elem: el, cond: s.pathCond(b), block: b, pos: s.p.InstrPos(in), sf: s})
 					continue
 				}
+				if fa, ok := x.Addr.(*ssa.FieldAddr); ok && !(v.Op == "append" && len(v.Kids) >= 2) {
+					// assignment of a field of the object a package-level pointer variable points to
+					if g := loadedGlobal(fa.X); g != nil && s.p.Own[g.Pkg.Pkg] {
+						n, _ := fieldOf(fa.X.Type(), fa.Field)
+						el := &Sym{Op: "struct", Name: "assign", Fields: []string{"value"}, Kids: []*Sym{v}}
+						out = append(out, emission{target: "globalstore:" + s.p.GlobalKey(g) + "." + n, elem: el, cond: s.pathCond(b), block: b, pos: s.p.InstrPos(in), sf: s})
+						continue
+					}
+				}
 				if name := s.paramFieldTarget(x.Addr); name != "" && !(v.Op == "append" && len(v.Kids) >= 2) {
 					el := &Sym{Op: "struct", Name: "assign", Fields: []string{"value"}, Kids: []*Sym{v}}
 					out = append(out, emission{target: name, elem: el, cond: s.pathCond(b), block: b, pos: s.p.InstrPos(in), sf: s})
@@ -239,6 +248,28 @@ func runE5Row(p *Program, sp *Spec, c *Collector, r *E5Row) bool {
 				matches = append(matches, e)
 			}
 		}
+		if len(matches) > 1 {
+			// several candidates: keep those at the loop depth the row describes
+			depth := 0
+			if r.Each != nil {
+				depth = len(strings.Split(r.Each.As, ","))
+			}
+			var atDepth []emission
+			for _, e := range matches {
+				d := 0
+				for _, l := range sf.headers {
+					if l[e.block] {
+						d++
+					}
+				}
+				if d == depth {
+					atDepth = append(atDepth, e)
+				}
+			}
+			if len(atDepth) == 1 {
+				matches = atDepth
+			}
+		}
 		if r.Index < len(matches) && (r.Index > 0 || r.Total == len(matches)) && len(matches) > 1 {
 			matches = []emission{matches[r.Index]}
 		}
@@ -276,6 +307,11 @@ func runE5Row(p *Program, sp *Spec, c *Collector, r *E5Row) bool {
 				extra = append(extra, strings.TrimSpace(names[i]))
 				spec2code[sf.binderName(h)] = &Sym{Op: "param", Name: fmt.Sprintf("p%d", len(r.Params)+i)}
 			}
+			// the key variable of a map range is written <name>_k in the table
+			nk := len(extra)
+			for i, h := range hs {
+				spec2code[sf.binderName(h)+"_k"] = &Sym{Op: "param", Name: fmt.Sprintf("p%d", len(r.Params)+nk+i)}
+			}
 			cond = cond.subst(spec2code)
 			elem = elem.subst(spec2code)
 			if r.Each.Coll != "" {
@@ -291,16 +327,30 @@ func runE5Row(p *Program, sp *Spec, c *Collector, r *E5Row) bool {
 					c.Ob(r.Props, "E5.decision", key+" each", Discharged, "emission loop ranges over "+wantColl.String(), e.pos, false)
 				}
 			}
+			for _, nm := range names {
+				extra = append(extra, strings.TrimSpace(nm)+"_k")
+			}
 		} else if h, _ := sf.loopOf(e.block); h != nil {
 			c.Ob(r.Props, "E5.decision", key, Violated, r.What+": the emission sits inside a loop the table does not describe", e.pos, false)
 			return true
 		}
-		want, err := parse(r.When, extra...)
-		if err != nil {
-			c.Anchor(r.Props, "E5: %v", err)
-			return false
+		var want *Sym
+		ok := true
+		if r.When == "*" {
+			// the table describes the record only, not when it is emitted
+			want = cond
+			if len(r.Fields) == 0 {
+				c.Ob(r.Props, "E5.decision", key+" count", Discharged, fmt.Sprintf("%s: exactly one emission into %s in %s", r.What, r.Target, shortFn(r.Func)), e.pos, true)
+			}
+		} else {
+			var err error
+			want, err = parse(r.When, extra...)
+			if err != nil {
+				c.Anchor(r.Props, "E5: %v", err)
+				return false
+			}
+			ok = e5Compare(c, r, key+" when", e.pos, cond, want, "bool", r.What)
 		}
-		ok := e5Compare(c, r, key+" when", e.pos, cond, want, "bool", r.What)
 		for _, f := range sortedKeys(r.Fields) {
 			wantF, err := parse(r.Fields[f], extra...)
 			if err != nil {
@@ -403,6 +453,13 @@ func runE5Row(p *Program, sp *Spec, c *Collector, r *E5Row) bool {
 					nm := strings.TrimSpace(names[i])
 					extra = append(extra, nm)
 					subst[sf.binderName(h)] = &Sym{Op: "param", Name: fmt.Sprintf("p%d", len(r.Params)+i)}
+				}
+			}
+			nk := len(extra)
+			for i, h := range hs {
+				if i < len(names) {
+					extra = append(extra, strings.TrimSpace(names[i])+"_k")
+					subst[sf.binderName(h)+"_k"] = &Sym{Op: "param", Name: fmt.Sprintf("p%d", len(r.Params)+nk+i)}
 				}
 			}
 		}
@@ -527,6 +584,9 @@ func targetMatches(got, want string) bool {
 	if strings.HasPrefix(want, "mapstore:") && strings.HasPrefix(got, "mapstore:") {
 		w, g := strings.TrimPrefix(want, "mapstore:"), strings.TrimPrefix(got, "mapstore:")
 		// a map made in the function (makemapN), a parameter (pN), or the field <Name> of some object
+		if w == "inner" {
+			return strings.HasPrefix(g, "lookup(") // a map kept inside another map
+		}
 		return g == w || g == "call:"+w+"()" || strings.HasSuffix(g, "."+w)
 	}
 	return false
